@@ -882,6 +882,7 @@ VALUEDEN_REVIEWED = [
     ("segment._adjusted_rand_index", _mentions("scipy.special.comb"), "number of frame pairs and (mean - expected) pair counts; the degenerate partitions (one cluster each, all singletons, < 2 frames) return 1.0 before this line"),
     ("segment._mutual_info_score", _mentions("segment._contingency_matrix"), "total of the contingency table = number of frames; mutual_information exits on empty annotations first"),
     ("segment._entropy", _mentions("np.bincount"), "total of the label histogram = number of frames (> 0 for a non-empty label sequence)"),
+    ("segment._entropy", _mentions("np.unique"), "total of the label counts (np.unique(.., return_counts=True)) = number of frames (> 0 for a non-empty label sequence)"),
     ("segment._adjusted_mutual_info_score", _mentions("segment._entropy"), "max(H_ref, H_est) - E[MI]; the one-cluster / all-singleton cases that make it 0 return 1.0 before this line (sklearn's special cases)"),
     ("transcription.average_overlap_ratio", _mentions("builtins.max", "builtins.min"), "length of the union of two matched notes; validate_intervals enforces positive durations, so the union is > 0"),
     ("hierarchy._lca", _mentions("p:frame_size"), "frame_size is validated > 0 by lmeasure before the helper is reached (C14.FACETS lmeasure:frame_size)"),
@@ -1061,6 +1062,12 @@ def rule_setbound(ctx):
                     bases = [c[1] for c in cfs]
                     good = (bases[0] is x and bases[1] is y) or (bases[0] is y and bases[1] is x)
                     why = "cell = len(intersection(a, b)) / max(len(a), len(b)) over the same two occurrences" if good else "the lengths in the denominator are not those of the two intersected occurrences"
+    if not good and cell.op == "bin" and cell.a[0] == "/":
+        num = count_form(cell.a[1])
+        if num is not None and num[0] == "len" and ((num[1].op == "bin" and num[1].a[0] == "&") or (num[1].op == "call" and call_name(num[1]) == ".intersection")) and not any(z.op == "call" and call_name(z) == "pattern._occurrence_intersection" for z in tm.walk(cell)):
+            # an intersection written out in the scoring loop over sets kept in local variables / look-up lists: which
+            # occurrence each of them holds is not something this rule follows
+            raise AnalysisError(R, "_compute_score_matrix: the cell numerator is %s - an intersection of sets held in local containers instead of _occurrence_intersection(occ_P, occ_Q); not read" % tm.show(cell.a[1], 3))
     yield ob(R, f, "pattern._compute_score_matrix:cell", good, why, node=st[0].node)
 
 
